@@ -1026,7 +1026,7 @@ class Batch:
                         # process leave something behind?  (STATE_AUDIT M6 / G7: then the SEQUENCE is the input)
                         key2, small, sk, remark = locate(ctx, as_history(sc), 0, key,
                                                          [it[1] for it in items[max(0, k - 6):k]])
-                        if key2 != key:
+                        if key2 != key or len(small['conns']) > 1:
                             key, inp = key2, dict(small, failing_connection=sk)
                         if remark:
                             what = '%s; %s' % (what, remark)
@@ -1221,38 +1221,63 @@ def concat_histories(hs):
     return {'mode': 'multi', 'family': 'sequence', 'conns': conns, 'events': events}, off
 
 
+UNFINISHED = ('the fresh-process confirmation did not finish (budget of fresh runs used up, or a fresh run itself failed): '
+              'the finding keeps the name it got in this process')
+
+
 def minimise_fresh(ctx, hist, k):
-    """Every candidate is RUN in a fresh interpreter: first the failing connection with ONE other (the latest first),
-    then greedily leave out the remaining others one at a time, then the events behind the failing connection's last
-    one - as long as connection k still fails."""
+    """Every candidate is RUN in a fresh interpreter; a run has THREE outcomes - True (connection k fails there),
+    False (it does not), None (unknown: no budget left / the run itself failed).  A connection is left out only on True.
+    First the failing connection with ONE other (the latest first), then greedily the remaining others one at a time,
+    then the events behind the failing connection's last one.
+    -> (history, k, alone): alone = the outcome of the failing connection run WITHOUT any other connection
+    (True: it fails alone - then the history returned IS that single connection; False: confirmed to pass alone;
+    None: unknown)."""
     cur, ck = hist, k
     if len(cur['conns']) > 2:
         for j in sorted((i for i in range(len(cur['conns'])) if i != ck), reverse=True)[:5]:
             h, ren = drop_connections(cur, [j, ck])
-            if fresh_fails(ctx, h, ren[ck]):
+            if fresh_fails(ctx, h, ren[ck]) is True:
                 cur, ck = h, ren[ck]
                 break
+    seen_alone = 'not-run'
     for _ in range(min(len(cur['conns']), 5)):
         for cand in sorted((i for i in range(len(cur['conns'])) if i != ck), reverse=True):
             h, ren = drop_connections(cur, [i for i in range(len(cur['conns'])) if i != cand])
-            if fresh_fails(ctx, h, ren[ck]):
+            r = fresh_fails(ctx, h, ren[ck])
+            if len(h['conns']) == 1:
+                seen_alone = r               # this candidate WAS the failing connection without any other
+            if r is True:
                 cur, ck = h, ren[ck]
                 break
         else:
             break
+    if len(cur['conns']) == 1:
+        alone = True
+    elif len(cur['conns']) == 2 and seen_alone != 'not-run':
+        alone = seen_alone                   # already run (False or None), not run twice
+    else:
+        # the claim "passes without the others" is made only when THIS run was made and said so
+        h, ren = drop_connections(cur, [ck])
+        alone = fresh_fails(ctx, h, ren[ck])
+        if alone is True:
+            cur, ck = h, ren[ck]
     last = max((n for n, ev in enumerate(cur['events']) if ev[1] == ck), default=len(cur['events']) - 1)
     if last + 1 < len(cur['events']):
         h = dict(cur, events=cur['events'][:last + 1])
-        if fresh_fails(ctx, h, ck):
+        if fresh_fails(ctx, h, ck) is True:
             cur = h
-    return cur, ck
+    return cur, ck, alone
 
 
 def locate(ctx, hist, k, key, earlier):
     """What reproduces the failure of connection k of `hist` (found in this process) from a fresh process?
     -> (key, history, k, remark).  `earlier` = the scenarios that ran just before it in this process.
-    At most three attempts per key and FRESH_BUDGET fresh runs per check; a key is settled once it was reproduced."""
-    if FRESH['left'] <= 0 and hist.get('failing_connection') is not None and len(hist['conns']) > 1:
+    At most three attempts per key and FRESH_BUDGET fresh runs per check; a key is settled once it was reproduced.
+    Every fresh run has three outcomes (reproduces / does not reproduce / unknown); the finding is renamed
+    `delivery-depends-on-other-connection` ONLY when both halves were observed: it fails with the other connection(s)
+    (True) and the failing connection alone does not (False).  On unknown the original key stays and the text says so."""
+    if FRESH['left'] <= 0 and hist.get('located') and len(hist['conns']) > 1:
         return 'delivery-depends-on-other-connection', hist, k, None       # the replay of a located history
     tries = FRESH['tries'].get(key, 0)
     if key in FRESH['keys'] or tries >= 3 or FRESH['left'] <= 0:
@@ -1260,23 +1285,30 @@ def locate(ctx, hist, k, key, earlier):
     FRESH['tries'][key] = tries + 1
     r = fresh_fails(ctx, hist, k)
     if r is None:
-        return key, hist, k, None
+        return key, hist, k, UNFINISHED
     remark = None
-    if not r:
-        # not from this input alone: state left behind by the scenarios before it
+    if r is False:
+        # not from this input alone: state left behind by the scenarios before it?
         earlier = [as_history(e) for e in earlier[-3:] if convertible(e)]
         big, off = concat_histories(earlier + [hist])
-        if not (earlier and fresh_fails(ctx, big, k + off)):
+        rb = fresh_fails(ctx, big, k + off) if earlier else False
+        if rb is None:
+            return key, hist, k, ('NOT reproduced from this input alone in a fresh process; ' + UNFINISHED)
+        if rb is False:
             return key, hist, k, ('NOT reproduced from this input alone in a fresh process (nor behind the %d scenarios '
                                   'that ran before it): it depends on what earlier scenarios of the run left in the '
                                   'process' % len(earlier))
         hist, k = big, k + off
-    FRESH['keys'].add(key)
-    small, sk = minimise_fresh(ctx, hist, k)
-    if len(small['conns']) > 1:
+    FRESH['keys'].add(key)                 # reproduced in a fresh process (from `hist` as it is now)
+    small, sk, alone = minimise_fresh(ctx, hist, k)
+    if len(small['conns']) > 1 and alone is False:
         FRESH['keys'].add('delivery-depends-on-other-connection')
-        return ('delivery-depends-on-other-connection', small, sk,
+        return ('delivery-depends-on-other-connection', dict(small, located=True), sk,
                 'fails in a fresh process with the other connection(s) of this history, passes without them')
+    if len(small['conns']) > 1:
+        # alone is None: whether the failing connection fails without the others was never observed
+        return key, small, sk, ('reproduced in a fresh process from this history; whether the failing connection alone '
+                                'fails too is unknown - ' + UNFINISHED)
     return key, small, sk, remark
 
 
